@@ -185,4 +185,12 @@ theorem tokens_file_atomic (fs : FS) (t : List Nat) (k : Nat) (midWrite : Bool) 
     (crashedStore fs t k midWrite).load = (crashedStore fs t k midWrite).main.load :=
   ⟨PfC09.file_atomic fs t k midWrite, PfC09.file_complete fs t k, rfl⟩
 
+/-- ... and when the write itself FAILS after a partial write (disk full, quota) `StoreToFile` returns the error
+without renaming: the tokens file still holds the complete old list (the partial temporary file is left behind);
+when nothing fails it holds the complete new list and no temporary file remains. -/
+theorem tokens_file_failed_write_keeps_old (fs : FS) (t : List Nat) :
+    ((storeResult fs t true).1.main = fs.main ∧ (storeResult fs t true).2 = true) ∧
+    ((storeResult fs t false).1.main = .tokens t ∧ (storeResult fs t false).1.tmp = .absent ∧ (storeResult fs t false).2 = false) :=
+  PfC09.store_result fs t
+
 end PC09
